@@ -222,23 +222,36 @@ def toOpt {ε α : Type} : Except ε α → Option α
 def ror2Text (K : Consts) (env : Env) (esc : Bytes → Bytes) (ty : Ty) (v : Value) : Option Bytes :=
   (toOpt (encode (wcfg K env) encFuel [] ty v)).map (renderRor2 esc)
 
-/-- generated `ResourcePath()`: `/name` per segment, `/name/` + the key on the path writer for a
-keyed one -/
-def pathFrom (K : Consts) (env : Env) (onEntity : Bool) : List SegSpec → List Value → Option Bytes
+/-- the path keys on path-flavour writers, outermost first (`none`: a key does not marshal, or the
+caller passed fewer keys than the method's level has) -/
+def keyTexts (K : Consts) (env : Env) : List Ty → List Value → Option (List Bytes)
   | [], _ => some []
-  | [s], ks =>
-    (match s.key, onEntity, ks with
-    | some ty, true, k :: _ => (ror2Text K env K.pathEsc ty k).map (fun t => 47 :: (s.name ++ 47 :: t))
-    | some _, true, [] => Option.none
-    | _, _, _ => some (47 :: s.name))
-  | s :: rest, ks =>
-    (match s.key, ks with
-    | some ty, k :: ks' =>
-      (match ror2Text K env K.pathEsc ty k, pathFrom K env onEntity rest ks' with
-      | some t, some r => some (47 :: (s.name ++ 47 :: t) ++ r)
-      | _, _ => Option.none)
-    | some _, [] => Option.none
-    | Option.none, ks => (pathFrom K env onEntity rest ks).map (fun r => 47 :: s.name ++ r))
+  | ty :: tys, k :: ks =>
+    (match ror2Text K env K.pathEsc ty k, keyTexts K env tys ks with
+    | some t, some ts => some (t :: ts)
+    | _, _ => Option.none)
+  | _ :: _, [] => Option.none
+
+/-- the segments of the resource path: each resource name, followed by its key's text when the
+segment is keyed at this level -/
+def pathSegsB (onEntity : Bool) : List SegSpec → List Bytes → List Bytes
+  | [], _ => []
+  | [s], ts =>
+    (match s.key, onEntity, ts with
+    | some _, true, t :: _ => [s.name, t]
+    | _, _, _ => [s.name])
+  | s :: (s' :: rest), ts =>
+    (match s.key, ts with
+    | some _, t :: ts' => s.name :: t :: pathSegsB onEntity (s' :: rest) ts'
+    | some _, [] => [s.name]
+    | Option.none, ts => s.name :: pathSegsB onEntity (s' :: rest) ts)
+
+/-- `RawPathSegment("/name")` / `RawPathSegment("/name/")` + key: every segment preceded by `/` -/
+def joinPath (segs : List Bytes) : Bytes := segs.flatMap (fun s => 47 :: s)
+
+/-- generated `ResourcePath()` -/
+def pathFrom (K : Consts) (env : Env) (onEntity : Bool) (segs : List SegSpec) (keys : List Value) : Option Bytes :=
+  (keyTexts K env (keyTys onEntity segs) keys).map (fun ts => joinPath (pathSegsB onEntity segs ts))
 
 def joinWith (sep : UInt8) : List Bytes → Bytes
   | [] => []
@@ -281,9 +294,11 @@ def batchKeys : Body → List Value
   | .keyedPatch es => es.map (·.1)
   | _ => []
 
-/-- the `QueryParamsEncoder` the generated client method hands to the runtime; outer `none`: the
-client refuses (marshalling error); inner `none`: the nil encoder (no `?`) -/
-def queryOf (K : Consts) (env : Env) (r : ResSpec) (c : Call) : Option (Option Bytes) :=
+/-- the parameters the generated client method hands to the runtime, as name/text pairs before
+`BuildQueryParams` sorts and joins them; outer `none`: the client refuses (marshalling error, nil
+params); inner `none`: the nil encoder (no `?`). (`QueryParamsString("action=" + name)` and
+`QueryParamsString("q=" + name)` are the one-pair cases written without escaping.) -/
+def queryPairs (K : Consts) (env : Env) (r : ResSpec) (c : Call) : Option (Option (List (Bytes × Bytes))) :=
   let m := r.method
   let user : Option (List (Bytes × Bytes)) :=
     match m.params, c.params with
@@ -291,23 +306,27 @@ def queryOf (K : Consts) (env : Env) (r : ResSpec) (c : Call) : Option (Option B
     | some _, Option.none => Option.none          -- `NilQueryParams`
     | Option.none, _ => some []
   match m.kind with
-  | .action => some (some (K.pAction ++ 61 :: m.name))           -- `QueryParamsString("action=" + name)`
+  | .action => some (some [(K.pAction, m.name)])
   | .finder =>
     (match m.params with
-    | Option.none => some (some (K.pFinder ++ 61 :: m.name))     -- `QueryParamsString("q=" + name)`
-    | some _ => user.map (fun ps => some (joinQuery ((K.pFinder, ror2Str K.queryEsc m.name) :: ps))))
+    | Option.none => some (some [(K.pFinder, m.name)])
+    | some _ => user.map (fun ps => some ((K.pFinder, ror2Str K.queryEsc m.name) :: ps)))
   | k =>
     if isBatchKeyed k then
       (match lastKeyTy r.segs with
       | Option.none => Option.none
       | some kt =>
         match idsText K env kt (batchKeys c.body), user with
-        | some ids, some ps => some (some (joinQuery ((K.pIds, ids) :: ps)))
+        | some ids, some ps => some (some ((K.pIds, ids) :: ps))
         | _, _ => Option.none)
     else
       (match m.params with
       | Option.none => some Option.none
-      | some _ => user.map (fun ps => some (joinQuery ps)))
+      | some _ => user.map some)
+
+/-- the `QueryParamsEncoder`'s output -/
+def queryOf (K : Consts) (env : Env) (r : ResSpec) (c : Call) : Option (Option Bytes) :=
+  (queryPairs K env r c).map (fun o => o.map joinQuery)
 
 def pencToOpt {α : Type} : Except PEncErr α → Option α
   | .ok a => some a
@@ -575,13 +594,10 @@ def parseJson (data : Bytes) : Dec Json.JVal :=
     | Option.none => .unmodelled "json-nonstrict"
     | some t => .ok t
 
-/-- the closure registered for the method: path, query parameters, body — in that order -/
-def decodeInvocation (K : Consts) (env : Env) (r : ResSpec) (f : Routing.Facts) (req : Tunnel.Req) : Dec Invocation :=
+/-- the query-parameter half of the closure: the params struct (`none` for `EmptyRecord`; an action's
+parameters travel in the body) and, for the batch methods, the `ids` -/
+def decodeQuery (K : Consts) (env : Env) (r : ResSpec) (q : List (Bytes × Bytes)) : Dec (Option Value × List Value) :=
   let m := r.method
-  let q := parseQuery req.rawQuery
-  let body := bodyBytes req.body
-  (decodeKeys env (keyTys m.onEntity r.segs) (f.keys.map bytesOf)).bind (fun keys =>
-  -- query parameters
   let params : Dec (Option Value) :=
     match m.kind, m.params with
     | .action, _ => .ok Option.none
@@ -593,8 +609,14 @@ def decodeInvocation (K : Consts) (env : Env) (r : ResSpec) (f : Routing.Facts) 
       | some kt => decodeIds K env kt q
       | Option.none => .bad)
     else .ok []
-  params.bind (fun ps => ids.bind (fun idKeys =>
-  let inv (b : Body) (p : Option Value := ps) : Dec Invocation := .ok ⟨keys, p, b⟩
+  params.bind (fun ps => ids.bind (fun idKeys => .ok (ps, idKeys)))
+
+/-- the body half of the closure, given the decoded parameters and ids: the parameters the
+implementation receives (an action's come from the body) and the body argument -/
+def decodeBody (K : Consts) (env : Env) (r : ResSpec) (ps : Option Value) (idKeys : List Value) (body : Bytes) :
+    Dec (Option Value × Body) :=
+  let m := r.method
+  let inv (b : Body) (p : Option Value := ps) : Dec (Option Value × Body) := .ok (p, b)
   match m.kind with
   | .get | .delete | .get_all | .finder => if body.isEmpty then inv .none else .bad
   | .batch_get | .batch_delete => if body.isEmpty then inv (.ids idKeys) else .bad
@@ -638,7 +660,13 @@ def decodeInvocation (K : Consts) (env : Env) (r : ResSpec) (f : Routing.Facts) 
     (match m.params with
     | Option.none => inv .none Option.none                    -- `IsEmptyRecord(params)`: the body is not read
     | some n => (ofTRes (unmarshalJson (jsonTCfg env 0) (.ref n) body)).bind (fun v => inv .none (some v)))
-  | .unknown => .bad)))
+  | .unknown => .bad
+
+/-- the closure registered for the method: path, query parameters, body — in that order -/
+def decodeInvocation (K : Consts) (env : Env) (r : ResSpec) (f : Routing.Facts) (req : Tunnel.Req) : Dec Invocation :=
+  (decodeKeys env (keyTys r.method.onEntity r.segs) (f.keys.map bytesOf)).bind (fun keys =>
+    (decodeQuery K env r (parseQuery req.rawQuery)).bind (fun qp =>
+      (decodeBody K env r qp.1 qp.2 (bodyBytes req.body)).bind (fun pb => .ok ⟨keys, pb.1, pb.2⟩)))
 
 /-! ## server: which method, and what it sees -/
 
@@ -660,6 +688,14 @@ def factsMatch (r : ResSpec) (f : Routing.Facts) : Bool :=
    | .action => f.action == some (strOf r.method.name)
    | _ => true)
 
+/-- the registered closure: decode path, parameters and body, then call the implementation -/
+def afterRouting (K : Consts) (env : Env) (r : ResSpec) (f : Routing.Facts) (req : Tunnel.Req) : Seen :=
+  match decodeInvocation K env r f req with
+  | .ok i => .invoked i
+  | .bad => .rejected (K.R.stDecode f.method) true
+  | .unmodelled w => .unmodelled w
+  | .panic => .panic
+
 /-- `DecodeTunnelledQuery`, `ServeHTTP`, `receive`, the registered closure -/
 def serverSees (K : Consts) (env : Env) (roots : List Routing.Node) (cfg : Cfg) (r : ResSpec) (sent : Tunnel.Req) : Seen :=
   match Tunnel.decodeTunnelledQuery K.T sent with
@@ -676,11 +712,7 @@ def serverSees (K : Consts) (env : Env) (roots : List Routing.Node) (cfg : Cfg) 
       | .routed f ownKey hasEntity =>
         if !factsMatch r f then .other f
         else if f.method == .action && ownKey != hasEntity then .rejected (K.R.stDecode f.method) true
-        else match decodeInvocation K env r f req with
-          | .ok i => .invoked i
-          | .bad => .rejected (K.R.stDecode f.method) true
-          | .unmodelled w => .unmodelled w
-          | .panic => .panic
+        else afterRouting K env r f req
 
 /-! ## server: the response -/
 
